@@ -9,13 +9,14 @@ from .. import gens, refmodel
 
 RULE = ("Cases: Hypothesis signals of length 3..400 (quick) / 3..2000 (thorough) from all families (noise, random walk, "
         "multi-tone + trend, AM/FM, integer-valued/plateau, constant, ramp, edge-plateau; short noisy signals "
-        "over-weighted; stored as float64, float32, int64 or int16) x stop rule (a quarter of the sd / rilling cases with an iteration limit of 1..10) x step size x {splrep,pchip,mono_pchip} x pad_width 1..5 x parabolic refinement on/off x magnitude padding rule {default, mean, median, edge, maximum}, max_imfs=None, no "
+        "over-weighted; stored as float64, float32, int64 or int16) x stop rule (a quarter of the sd / rilling cases with an iteration limit of 1..10) x step size x {splrep,pchip,mono_pchip} x pad_width 1..5 x parabolic refinement on/off x magnitude padding rule {default, mean, median, edge, maximum, linear_ramp, constant}, max_imfs=None, no "
         "energy threshold, sift_thresh in {default, exactly 0, 2% / 20% of sum|x|}. Oracle: result is a finite [N x K] array or the documented "
         "EMDSiftCovergeError; unless sum|last column| < sift_thresh: max|sum_k imf_k - x| <= 1e-9*max|x| and the "
         "last column has < 2 strict interior maxima or < 2 strict interior minima. Exit paths of every extraction "
         "(A input had no extrema / B extrema vanished after >= 1 mean removals / C stop rule fired) are measured "
         "with the reference extraction on the residuals. Non-trivial: K >= 2 columns.")
-MAGPADS = [{'mode': 'mean', 'stat_length': 3}, {'mode': 'median', 'stat_length': 3}, {'mode': 'edge'}, {'mode': 'maximum'}]
+MAGPADS = [{'mode': 'mean', 'stat_length': 3}, {'mode': 'median', 'stat_length': 3}, {'mode': 'edge'}, {'mode': 'maximum'},
+           {'mode': 'linear_ramp', 'end_values': (0.5, -0.5)}, {'mode': 'constant', 'constant_values': 0.25}]
 
 ASSUMPTIONS = ["nothing is asserted about IMF quality; convergence errors are an accepted, counted outcome"]
 
@@ -38,7 +39,7 @@ def case(draw):
     # fraction of the signal's own absolute sum (cut after the first component or two)
     return {'sig': sig, 'opts': opts, 'interp': draw(st.sampled_from(['splrep', 'pchip', 'mono_pchip'])),
             'pad': draw(st.integers(1, 5)), 'thresh': draw(st.sampled_from([None, None, None, 0, 0.0, 'rel:0.2', 'rel:0.02'])),
-            'par': draw(st.sampled_from([False, False, False, True])), 'magpad': draw(st.sampled_from([None, None, None, 0, 1, 2, 3])),
+            'par': draw(st.sampled_from([False, False, False, True])), 'magpad': draw(st.sampled_from([None, None, None, 0, 1, 2, 3, 4, 5])),
             'pre': draw(st.sampled_from([False, False, True]))}
 
 
